@@ -11,6 +11,7 @@ import (
 	"net/url"
 	"os"
 	"path/filepath"
+	"strings"
 	"testing"
 	"time"
 
@@ -305,6 +306,18 @@ func (r vSvcResolver) ResolveEx(_ ssi.URI, _ int, _ int, _ map[string]*did.Docum
 	return r.Resolve(ssi.URI{}, 0)
 }
 
+type vMutableSvc struct{ endpoint interface{} }
+
+func (r *vMutableSvc) Resolve(_ ssi.URI, _ int) (did.Service, error) {
+	if r.endpoint == nil {
+		return did.Service{}, errors.New("service not found")
+	}
+	return did.Service{Type: transport.NutsCommServiceType, ServiceEndpoint: r.endpoint}, nil
+}
+func (r *vMutableSvc) ResolveEx(_ ssi.URI, _ int, _ int, _ map[string]*did.Document) (did.Service, error) {
+	return r.Resolve(ssi.URI{}, 0)
+}
+
 func (s *vSim) authnCases(only string) {
 	certs := map[string]*x509.Certificate{
 		"none":     nil,
@@ -356,6 +369,51 @@ func (s *vSim) authnCases(only string) {
 				case len(err.Error()) > 13 && err.Error()[:13] == "can't resolve":
 					cls = "err:resolve"
 				case err.Error() == "none of the DNS names in the peer's TLS certificate match the NutsComm endpoint":
+					cls = "err:hostname"
+				}
+				line = fmt.Sprintf("authn %s auth=%v did=%s", cls, got.Authenticated, got.NodeDID.String())
+			} else {
+				line = fmt.Sprintf("authn ok auth=%v did=%s", got.Authenticated, got.NodeDID.String())
+			}
+			s.out.emit(vJSON(op), line)
+		}
+	}
+	// HISTORIES on ONE authenticator instance: the DID document changes between calls (endpoint moved / removed / restored);
+	// every call must be judged against the document as it is NOW
+	if only == "" || strings.HasPrefix(only, "history") {
+		res := &vMutableSvc{}
+		auth := grpc.NewTLSAuthenticator(res)
+		certH1 := &x509.Certificate{DNSNames: []string{"old.example.org"}}
+		certH2 := &x509.Certificate{DNSNames: []string{"new.example.org"}}
+		steps := []struct {
+			endpoint interface{}
+			cert     *x509.Certificate
+		}{
+			{"grpc://old.example.org:5555", certH1}, {"grpc://old.example.org:5555", certH1}, {"grpc://new.example.org:5555", certH1},
+			{"grpc://new.example.org:5555", certH2}, {"grpc://new.example.org:5555", certH1}, {nil, certH1}, {nil, certH2},
+			{"grpc://old.example.org:5555", certH2}, {"grpc://old.example.org:5555", certH1}, {"", certH1}, {"grpc://new.example.org:5555", certH1},
+		}
+		claimed := did.MustParseDID("did:nuts:moving")
+		for k, st := range steps {
+			res.endpoint = st.endpoint
+			got, err := auth.Authenticate(claimed, transport.Peer{ID: "p", Address: "addr", Certificate: st.cert})
+			op := map[string]interface{}{"op": "authn", "claimed": claimed.String(), "cert": true, "resolve": st.endpoint != nil, "case": fmt.Sprintf("history/%d", k)}
+			host, parsed, covers := "", false, false
+			if st.endpoint != nil {
+				str, _ := st.endpoint.(string)
+				if u, perr := url.Parse(str); perr == nil {
+					parsed, host = true, u.Hostname()
+					covers = st.cert.VerifyHostname(host) == nil
+				}
+			}
+			op["parsed"], op["host"], op["covers"] = parsed, host, covers
+			line := ""
+			if err != nil {
+				cls := "err:other"
+				switch {
+				case strings.HasPrefix(err.Error(), "can't resolve"):
+					cls = "err:resolve"
+				case strings.HasPrefix(err.Error(), "none of the DNS names"):
 					cls = "err:hostname"
 				}
 				line = fmt.Sprintf("authn %s auth=%v did=%s", cls, got.Authenticated, got.NodeDID.String())
